@@ -104,6 +104,9 @@ type c16Cfg struct {
 	// UnknownLength: the request body is a plain io.Reader, so an uncompressed request goes out chunked, without
 	// Content-Length
 	UnknownLength bool `json:"body_of_unknown_length"`
+	// DataWithEOF: the body reader hands out its last bytes together with io.EOF (as the body of an incoming HTTP
+	// request with a Content-Length does, e.g. when a received request is forwarded)
+	DataWithEOF bool `json:"body_reader_returns_data_with_eof,omitempty"`
 	// Prelude: an earlier request through the same client and server (other body, possibly cut mid-stream) that leaves
 	// pooled encoders / decoders in a used state; only the second request is judged
 	Prelude    int `json:"prelude_request_body_len,omitempty"`
@@ -632,6 +635,33 @@ func runC16Replay(r *simkit.Run) {
 	}
 }
 
+// dataEOFReader reads b in chunks and returns the last chunk together with io.EOF (the io.Reader contract allows it).
+type dataEOFReader struct {
+	b     []byte
+	chunk int
+}
+
+func (d *dataEOFReader) Read(p []byte) (int, error) {
+	if len(d.b) == 0 {
+		return 0, io.EOF
+	}
+	n := d.chunk
+	if n > len(p) {
+		n = len(p)
+	}
+	if n >= len(d.b) {
+		n = copy(p, d.b)
+		d.b = d.b[n:]
+		if len(d.b) == 0 {
+			return n, io.EOF
+		}
+		return n, nil
+	}
+	copy(p, d.b[:n])
+	d.b = d.b[n:]
+	return n, nil
+}
+
 func runC16(r *simkit.Run) {
 	tp := r.Tape
 	if tp.Chance(1, 6) {
@@ -711,6 +741,7 @@ func runC16(r *simkit.Run) {
 		cfg.Truncate = tp.Range(1, 400+cfg.BodyLen/2)
 	}
 	cfg.UnknownLength = tp.Chance(1, 3)
+	cfg.DataWithEOF = cfg.UnknownLength && tp.Chance(1, 2)
 	if tp.Chance(1, 3) {
 		cfg.Prelude = []int{1, 700, 5000, 70000, 140000}[tp.Draw(5)]
 		if tp.Chance(1, 3) {
@@ -841,6 +872,9 @@ func runC16(r *simkit.Run) {
 		// a body whose length the client cannot know in advance: sent with chunked transfer encoding, no Content-Length
 		rd = io.MultiReader(rd)
 		r.Count("probe.request_without_content_length")
+		if cfg.DataWithEOF {
+			rd = &dataEOFReader{b: body, chunk: 2048}
+		}
 	}
 	resp, perr := client.Post(cc.Endpoint+"/", "application/octet-stream", rd)
 	status := 0
